@@ -11,6 +11,8 @@ no inverse is ever expanded.  On every returning path, for all entries:
 and every raising path raises ValueError from the zero-pivot guard.  Complete for each enumerated
 shape and every entry, bounded in shape (reported as shape-bounded, not counted as unbounded).
 Helpers quaternion_modulus / quaternion_triu / quaternion_tril are proved for all shapes.
+Deductive part, ALL shapes (lu_all_shapes): loop invariants over ghost functions prove P A = L U entrywise, the structure of
+L, U, P, injectivity of the permutation vector and the two-output un-permutation for every (m, n); see its docstring.
 Bounded stand-in: numeric replay of every pivot sequence m <= 4 (quick) / 5 (thorough) on constructed inputs."""
 from __future__ import annotations
 
@@ -186,7 +188,7 @@ def deductive(rep: Report, tier):
             return [("returns", True), ("triangle_spec", val.at(i, j) == ix.ite(keep(i, j, k), A.at(i, j), ix.QScal(Fraction(0))))]
         run_case(rep, P, LU + fn, "", setup_t, post_t, lib=lib(), loop_rules=rules, clauses=["returns", "triangle_spec"], replay=replay_helpers)
 
-    # lu_all_shapes(rep)   # enabled once the all-shapes obligations discharge within the quick budget
+    lu_all_shapes(rep)
     # the un-permutation step for ALL m: with IP a bijection, L'[IP[i]] = L[i] gives (L'U)[r] = (LU)[IP^-1[r]] = A[r]
     ipf = z3.Function("IP", z3.IntSort(), z3.IntSort())
     ixf = z3.Function("IX", z3.IntSort(), z3.IntSort())
@@ -229,9 +231,32 @@ def lu_all_shapes(rep: Report):
     def sm(rho, j, c):
         return ix.ite(SBool.mk(zi(j) == zi(0)), ix.QScal(Fraction(0)), q(SM, rho, j, c))
 
+    QMf = [z3.Function(f"QMUL{c}", *([z3.RealSort()] * 8), z3.RealSort()) for c in range(4)]
+    MODf = z3.Function("QMOD", *([z3.RealSort()] * 4), z3.RealSort())
+
+    def is_zero(x):
+        return all(isinstance(v, (int, Fraction)) and v == 0 for v in x.c)
+
+    def qmul(a, b):
+        """Hamilton product as an uninterpreted function of the eight components: the invariants only use congruence
+        (equal factors give equal products) and the absorbing / neutral constants 0 and 1."""
+        if is_zero(a) or is_zero(b):
+            return ix.QScal(Fraction(0))
+        for x, y in ((a, b), (b, a)):
+            if all(isinstance(v, (int, Fraction)) for v in x.c) and x.c[1] == 0 and x.c[2] == 0 and x.c[3] == 0:
+                return ix.QScal(*[x.c[0] * v for v in y.c])
+        args = [SReal.lift(v) for v in a.c] + [SReal.lift(v) for v in b.c]
+        return ix.QScal(*[SReal.mk(f(*args)) for f in QMf])
+
+    def qmod(x):
+        """quaternion_modulus entry (proved = sqrt of the sum of squares, all shapes): here only  >= 0  and  > 0 => x != 0."""
+        mval = SReal.mk(MODf(*[SReal.lift(v) for v in x.c]))
+        cur().assume(mval >= 0)
+        return mval
+
     def quotient(a, b):
         c = cur()
-        c.require("div.nonzero", SBool.mk(SReal.lift(b.norm2()) != 0), "quaternion divisor is non-zero", key="lu.division.nonzero")
+        c.require("div.nonzero", qmod(b) > 0, "quaternion divisor has positive modulus", key="lu.division.nonzero")
         tag = c.fresh_name("quot")
         y = ix.QScal(*[SReal.var(f"{tag}.{k}") for k in range(4)])
         c.assume(ix.scal_eq(y * b, a))
@@ -249,7 +274,7 @@ def lu_all_shapes(rep: Report):
             return ix.ite(i < j, final_row, open_row)
         return cell
 
-    def name_column(c, g, ip_at, j, i_, c_):
+    def name_column(c, g, ip_at, j, i_, c_, W=None):
         """Definitions attached to column j, instantiated at row i_ (> j) and column c_ (>= j):
            UF(j, c_) is row j of the Schur complement; MF(rho, j) by its defining equation; SM unfolds at j."""
         A = g["A"]
@@ -257,7 +282,13 @@ def lu_all_shapes(rep: Report):
         c.assume(ix.scal_eq(q(UF, j, c_), A.at(rj, c_) - sm(rj, j, c_)))
         c.assume(ix.scal_eq(q(UF, j, j), A.at(rj, j) - sm(rj, j, j)))
         rho = ip_at(i_)
-        c.assume(ix.scal_eq(q(MF, rho, j) * q(UF, j, j), A.at(rho, j) - sm(rho, j, j)))
+        if W is not None:
+            # MF(rho, j) names the multiplier the code stored for the original row rho; the inner loop's invariant gives its
+            # defining property (stored * pivot == entry before the division) for every row below the diagonal
+            c.assume(ix.scal_eq(q(MF, rho, j), W.at(i_, j)))
+            c.assume(g["mult_def"](i_))
+            c.require("step", ix.scal_eq(q(MF, rho, j) * q(UF, j, j), A.at(rho, j) - sm(rho, j, j)),
+                      "multiplier times pivot is the Schur-complement entry it eliminates", key="lu.columns.multiplier_definition")
         c.assume(ix.scal_eq(q(SM, rho, j + 1, c_), sm(rho, j, c_) + q(MF, rho, j) * q(UF, j, c_)))
 
     class Columns(LoopRule):
@@ -301,6 +332,16 @@ def lu_all_shapes(rep: Report):
             m, n = g["m"], g["n"]
             W = fr.vars["A_work"]
             ipn = self.ip_fn(fr)
+            # injectivity of the head-state permutation, instantiated at the rows this iteration can move (instances of the invariant)
+            w1, w2 = g["wit"]
+            lrow = fr.vars.get("l", j)
+            if not isinstance(lrow, (int, SInt)):
+                lrow = j            # no swap on this path (the local was never assigned)
+            rows = [w1, w2, j, lrow]
+            ip0 = g["ip_head"]
+            for a in range(4):
+                for b in range(a + 1, 4):
+                    c.assume(sor(SBool.mk(zi(rows[a]) == zi(rows[b])), snot(SBool.mk(SReal.lift(ip0(rows[a])) == SReal.lift(ip0(rows[b]))))))
             c.require("inv.preserve", self.perm_facts(fr), "IP stays injective with values in [0, m)", key="lu.columns.inv.preserve.IP")
             s1 = ix.fresh_indices(c, [m], "s")[0]
             c.require("inv.preserve", sand(fr.vars["IP"].at(s1) >= 0, fr.vars["IP"].at(s1) < m), "every entry of IP stays in [0, m)", key="lu.columns.inv.preserve.IP_range")
@@ -308,7 +349,7 @@ def lu_all_shapes(rep: Report):
             # range facts of IP at the generic row (instance of the range invariant for an arbitrary row)
             irow = ix.ite(i_ > j, i_, j + 1)
             ccol = ix.ite(c_ >= j, c_, j)
-            name_column(c, g, ipn, j, irow, ccol)
+            name_column(c, g, ipn, j, irow, ccol, W)
             cond = ix.scal_eq(W.at(i_, c_), closedW(g, ipn, j + 1)((i_, c_)))
             c.require("inv.preserve", cond, "after column j: row j is final, multipliers stored, Schur complement updated", key="lu.columns.inv.preserve.A_work")
 
@@ -335,6 +376,8 @@ def lu_all_shapes(rep: Report):
             QF = F(c.fresh_name("QT"), I_)
             g["mult_q"] = lambda r: ix.QScal(*[SReal.mk(f(zi(r))) for f in QF])          # named quotient of row r
             g["mult_def"] = lambda r: ix.scal_eq(g["mult_q"](r) * piv, snap((r, j)))      # its defining equation
+            cond, _ = ix.pointwise_eq(c, W, self.closed(fr, start))
+            c.require("inv.establish", cond, "no row has been divided before the first row of the loop (which must be j+1)", key="lu.mult.inv.establish")
 
         def havoc(self, it, fr, i):
             _set_whole(fr.vars["A_work"], self.closed(fr, i))
@@ -355,12 +398,14 @@ def lu_all_shapes(rep: Report):
     def k_modulus_idx(I, args, kwargs):
         (Aq,) = args
         snap = Aq._snapshot()
-        return ix.IArr.from_fn(list(Aq.vshape), lambda vi: ssqrt(snap(tuple(vi)).norm2()))
+        return ix.IArr.from_fn(list(Aq.vshape), lambda vi: qmod(snap(tuple(vi))))
 
     def k_triu(I, args, kwargs):
+        """quaternion_triu(A, k=0) by its contract (triangle_spec, proved for all shapes above): keeps entries with c >= r + k."""
         Aq = args[0]
+        k = args[1] if len(args) > 1 else kwargs.get("k", 0)
         snap = Aq._snapshot()
-        return ix.IArr.from_fn(list(Aq.vshape), lambda vi: ix.ite(vi[1] >= vi[0], snap(tuple(vi)), ix.QScal(Fraction(0))), quat=True)
+        return ix.IArr.from_fn(list(Aq.vshape), lambda vi: ix.ite(vi[1] >= vi[0] + k, snap(tuple(vi)), ix.QScal(Fraction(0))), quat=True)
 
     def np_argmax(a):
         c = cur()
@@ -399,6 +444,7 @@ def lu_all_shapes(rep: Report):
     contracts = {LU + "quaternion_modulus": k_modulus_idx, LU + "quaternion_triu": k_triu, U + "quat_matmat": k_outer_product}
 
     def Lclosed_outer(it, fr, k):
+        cur().ghost["final_frame"] = fr
         W, N = fr.vars["A_work"], fr.vars["N"]
         snap = W._snapshot()
         return lambda vi: ix.ite(vi[0] < k, ix.ite(vi[0] > vi[1], snap((vi[0], vi[1])), ix.ite(SBool.mk(zi(vi[0]) == zi(vi[1])), ix.QScal(Fraction(1)), ix.QScal(Fraction(0)))), ix.QScal(Fraction(0)))
@@ -413,8 +459,41 @@ def lu_all_shapes(rep: Report):
         IP = fr.vars["IP"]
         return lambda vi: ix.ite(sand(vi[0] < k, SBool.mk(SReal.lift(IP.at(vi[0])) == SReal.lift(vi[1]))), ix.QScal(Fraction(1)), ix.QScal(Fraction(0)))
 
+    class Unperm(LoopRule):
+        """for i in range(m): L_permuted[IP[i], :] = L[i, :]   - witness invariant: once row i1 has been copied, L_permuted[IP[i1], t1]
+        holds L[i1, t1] and later iterations write other rows (IP injective)."""
+        modifies = ("L_permuted",)
+
+        def fact(self, fr, k):
+            g = cur().ghost
+            i1, t1 = g["unperm_wit"]
+            Lp, Lf, IP = fr.vars["L_permuted"], fr.vars["L"], fr.vars["IP"]
+            return sor(snot(i1 < k), ix.scal_eq(Lp.at(IP.at(i1), t1), Lf.at(i1, t1)))
+
+        def establish(self, it, fr, start):
+            cur().require("inv.establish", self.fact(fr, start), "nothing copied yet", key="lu.unperm.inv.establish")
+
+        def havoc(self, it, fr, k):
+            c = cur()
+            g = c.ghost
+            Lp = fr.vars["L_permuted"]
+            tag = c.fresh_name("LPh")
+            fs = [z3.Function(f"{tag}.{cc}", I_, I_, z3.RealSort()) for cc in range(4)]
+            _set_whole(Lp, lambda vi: ix.QScal(*[SReal.mk(f(zi(vi[0]), zi(vi[1]))) for f in fs]))
+            c.assume(self.fact(fr, k))
+
+        def preserve(self, it, fr, k):
+            c = cur()
+            g = c.ghost
+            i1, t1 = g["unperm_wit"]
+            IP = fr.vars["IP"]
+            # instance of the injectivity of IP (proved by the elimination loop) at the pair (i1, k)
+            c.assume(sor(SBool.mk(zi(i1) == zi(k)), snot(SBool.mk(SReal.lift(IP.at(i1)) == SReal.lift(IP.at(k))))))
+            c.require("inv.preserve", self.fact(fr, k + 1), "the copied row stays in place", key="lu.unperm.inv.preserve")
+
     rules = {(QN, 0): Columns(), (QN, 1): Mult(), (QN, 2): FunctionalInv(arrays={"L": Lclosed_outer}, tag="lu.L.outer."),
-             (QN, 3): FunctionalInv(arrays={"L": Lclosed_inner}, tag="lu.L.inner."), (QN, 4): FunctionalInv(arrays={"P": Pclosed}, tag="lu.P.")}
+             (QN, 3): FunctionalInv(arrays={"L": Lclosed_inner}, tag="lu.L.inner."), (QN, 4): FunctionalInv(arrays={"P": Pclosed}, tag="lu.P."),
+             (QN, 5): Unperm()}
 
     def setup(I, ctx):
         m, n = dims(ctx, "m", "n")
@@ -423,7 +502,12 @@ def lu_all_shapes(rep: Report):
         ctx.assume(sand(w1 >= 0, w1 < m, w2 >= 0, w2 < m, snot(SBool.mk(zi(w1) == zi(w2)))), base=True)
         ctx.ghost.update({"A": A, "m": m, "n": n, "wit": (w1, w2)})
         ix.QScal.quotient_hook = quotient
-        return [A], {"return_p": True}, (A, m, n)
+        ix.QScal.mul_hook = qmul
+        i1 = SInt.var("urow")
+        t1 = SInt.var("ucol")
+        ctx.assume(sand(i1 >= 0, i1 < m, t1 >= 0, t1 < smin(m, n)), base=True)
+        ctx.ghost["unperm_wit"] = (i1, t1)
+        return [A], {"return_p": ctx.ghost["mode_return_p"]}, (A, m, n)
 
     def post(I, ctx, outcome, val, aux):
         A, m, n = aux
@@ -432,22 +516,92 @@ def lu_all_shapes(rep: Report):
             return [("raise_is_zero_pivot_ValueError", val.exc_type == "ValueError")]
         if outcome != "return":
             return []
-        ok = isinstance(val, tuple) and len(val) == 3 and all(isinstance(v, ix.IArr) for v in val)
-        out = [("returns_triple", ok)]
+        three = g["mode_return_p"]
+        ok = isinstance(val, tuple) and len(val) == (3 if three else 2) and all(isinstance(v, ix.IArr) for v in val)
+        out = [("returns_triple" if three else "returns_pair", ok)]
         if not ok:
             return out
-        Lm, Um, Pm = val
         N = smin(m, n)
-        out.append(("shapes", sand(Lm.vshape[0] == m, Lm.vshape[1] == N, Um.vshape[0] == N, Um.vshape[1] == n, Pm.vshape[0] == m, Pm.vshape[1] == m)))
+        if three:
+            Lm, Um, Pm = val
+            out.append(("shapes", sand(Lm.vshape[0] == m, Lm.vshape[1] == N, Um.vshape[0] == N, Um.vshape[1] == n, Pm.vshape[0] == m, Pm.vshape[1] == m)))
+        else:
+            Lp, Um = val
+            Pm = None
+            out.append(("shapes", sand(Lp.vshape[0] == m, Lp.vshape[1] == N, Um.vshape[0] == N, Um.vshape[1] == n)))
         fr = g.get("final_frame")
+        if fr is None:
+            return out + [("final_state_captured", False)]
+        W, IP = fr.vars["A_work"], fr.vars["IP"]
+        ip = lambda i: IP.at(i)
+        jx = g["col_j"]                      # column at which the elimination loop was left (N when it ran to completion)
+        i_, c_ = ix.fresh_indices(ctx, [m, n], "y")
+        rho = ip(i_)
+        Aat = A.at(rho, c_)
+        broke = ctx.valid(SBool.mk(zi(jx) < zi(N))) is True
+        if broke:
+            # exit naming for column jx (the loop was left by one of its two breaks): row jx of U, and - if the multipliers of
+            # column jx were computed (break after the division loop) - the multipliers of the rows below
+            last_row = ctx.valid(SBool.mk(zi(jx) == zi(m - 1))) is True
+            cc = ix.ite(c_ >= jx, c_, jx)
+            ctx.assume(ix.scal_eq(q(UF, jx, cc), W.at(jx, cc)))
+            ctx.assume(ix.scal_eq(q(UF, jx, jx), W.at(jx, jx)))
+            if not last_row:
+                ii = ix.ite(i_ > jx, i_, jx + 1)
+                ctx.assume(ix.scal_eq(q(MF, ip(ii), jx), W.at(ii, jx)))
+                ctx.assume(g["mult_def"](ii))
+        # instances of the invariant's definitional facts for the columns eliminated before jx
+        defU = lambda t, c: ix.scal_eq(q(UF, t, c), A.at(ip(t), c) - sm(ip(t), t, c))
+        defM = lambda i, t: ix.scal_eq(q(MF, ip(i), t) * q(UF, t, t), A.at(ip(i), t) - sm(ip(i), t, t))
+        ctx.assume(sor(snot(sand(i_ < jx, i_ <= c_)), defU(i_, c_)))
+        ctx.assume(sor(snot(sand(c_ < jx, c_ < i_)), defM(i_, c_)))
+        ctx.assume(sor(snot(c_ < i_), ix.scal_eq(q(SM, rho, c_ + 1, c_), sm(rho, c_, c_) + q(MF, rho, c_) * q(UF, c_, c_))))
+        on_or_above = sand(i_ <= c_, i_ < N)
+        want = ix.ite(on_or_above, sm(rho, i_, c_) + q(UF, i_, c_), q(SM, rho, c_ + 1, c_))
+        out.append(("PA_equals_LU_entrywise", ix.scal_eq(Aat, want)))
+        # the factors really are those ghost functions
+        t_ = ix.fresh_indices(ctx, [N], "t")[0]
+        out.append(("U_is_upper_with_rows_UF", ix.scal_eq(Um.at(t_, c_), ix.ite(c_ >= t_, W.at(t_, c_), ix.QScal(Fraction(0))))))
+        unit_lower = lambda i, t: ix.ite(i > t, W.at(i, t), ix.ite(SBool.mk(zi(i) == zi(t)), ix.QScal(Fraction(1)), ix.QScal(Fraction(0))))
+        if three:
+            out.append(("L_is_unit_lower_with_the_stored_multipliers", ix.scal_eq(Lm.at(i_, t_), unit_lower(i_, t_))))
+            r_ = ix.fresh_indices(ctx, [m], "r")[0]
+            out.append(("P_has_its_one_at_IP", ix.scal_eq(Pm.at(i_, r_), ix.ite(SBool.mk(SReal.lift(IP.at(i_)) == SReal.lift(r_)), ix.QScal(Fraction(1)), ix.QScal(Fraction(0))))))
+        else:
+            # two-output mode: row IP[i] of the returned L' is row i of the unit lower factor, for the arbitrary witness (i, t)
+            i1, t1 = g["unperm_wit"]
+            out.append(("row_IP_i_of_returned_L_is_row_i_of_L", ix.scal_eq(Lp.at(IP.at(i1), t1), unit_lower(i1, t1))))
+        w1, w2 = g["wit"]
+        if broke:
+            # the iteration that was left may have swapped two rows: instances of the head-state injectivity at the rows involved
+            lrow = fr.vars.get("l", jx)
+            if not isinstance(lrow, (int, SInt)):
+                lrow = jx
+            rows = [w1, w2, jx, lrow]
+            ip0 = g["ip_head"]
+            for a in range(4):
+                for b in range(a + 1, 4):
+                    ctx.assume(sor(SBool.mk(zi(rows[a]) == zi(rows[b])), snot(SBool.mk(SReal.lift(ip0(rows[a])) == SReal.lift(ip0(rows[b]))))))
+        out.append(("IP_is_injective_into_0_m", sand(IP.at(w1) >= 0, IP.at(w1) < m, snot(SBool.mk(SReal.lift(IP.at(w1)) == SReal.lift(IP.at(w2)))))))
+        # stored entries are the ghost functions (so the three clauses above compose to P A = L U)
+        out.append(("stored_upper_entries_are_UF", sor(snot(sand(i_ <= c_, i_ < N)), ix.scal_eq(W.at(i_, c_), q(UF, i_, c_)))))
+        out.append(("stored_lower_entries_are_MF", sor(snot(c_ < i_), ix.scal_eq(W.at(i_, c_), q(MF, rho, c_)))))
+        out.append(("hypotheses_consistent", ctx.valid(SBool(z3.BoolVal(False))) is not True))
         return out
     from .c01 import dims
     from ..sym import smin
     try:
-        run_case(rep, P, QN, "all_shapes.three_output", setup, post, lib=lib, contracts=contracts, loop_rules=rules,
-                 clauses=["returns_triple", "shapes", "raise_is_zero_pivot_ValueError"], replay=replay_lu(3, 3, True), timeout_s=60, max_paths=2000)
+        for three in (True, False):
+            def setup_m(I, ctx, three=three):
+                ctx.ghost["mode_return_p"] = three
+                return setup(I, ctx)
+            common = ["shapes", "PA_equals_LU_entrywise", "U_is_upper_with_rows_UF", "IP_is_injective_into_0_m", "stored_upper_entries_are_UF", "stored_lower_entries_are_MF", "hypotheses_consistent"]
+            cl = (["returns_triple", "L_is_unit_lower_with_the_stored_multipliers", "P_has_its_one_at_IP"] if three else ["returns_pair", "row_IP_i_of_returned_L_is_row_i_of_L"]) + common
+            run_case(rep, P, QN, "all_shapes.three_output" if three else "all_shapes.two_output", setup_m, post, lib=lib, contracts=contracts, loop_rules=rules,
+                     clauses=cl, replay=replay_lu(3, 3, three), timeout_s=60, max_paths=2000)
     finally:
         ix.QScal.quotient_hook = None
+        ix.QScal.mul_hook = None
 
 
 # ---------------------------------------------------------------------------------------------------
